@@ -67,6 +67,9 @@ func VxH01wf() {
 	if two == 1 {
 		outs = append(outs, outA2)
 	}
+	if vxGet("side") == 1 {
+		outs = append(outs, "side.txt")
+	}
 	// C01: at every terminal state (= every instant, since a kill may precede any effect)
 	for _, o := range outs {
 		vxAssert(vxOutputOK(o), "C01.final-path-absent-or-complete")
@@ -98,7 +101,11 @@ func VxH01wf() {
 	// the failing task's outputs never appear; dependants do not run
 	if vxInvCount() >= 1 && !vxConcreteBool(vxInvOK(0)) {
 		vxAssert(vxInvCount() == 1, "C09.dependant-not-executed")
-		vxAssert(vxFSKind(outA) == vxAbsent, "C09.failed-output-not-finalized")
+		for _, o := range outs {
+			if o != "b.txt" {
+				vxAssert(vxFSKind(o) == vxAbsent, "C09.failed-output-not-finalized")
+			}
+		}
 	}
 }
 
